@@ -421,29 +421,31 @@ fn get_path_and_canonicalized_parameters(url: &Uri) -> (String, String) {
 
     let query_pairs = query_pairs(url);
     let mut canonicalized_parameters = String::new();
-    let mut pairs: HashMap<String, (String, String)> = HashMap::new();
+    // keep every parameter: a map keyed by name+value would drop exact duplicates and
+    // parameters whose name+value concatenations coincide (e.g. "a=bc" and "ab=c")
+    let mut pairs: Vec<(String, (String, String))> = Vec::new();
     if !query_pairs.is_empty() {
         for (key, value) in query_pairs {
             let key = key.to_lowercase();
-            pairs.insert(
+            pairs.push((
                 // add the query parameter value for sorting,
                 // just in case of duplicate keys by value lexicographically in ascending order.
                 format!("{}{}", key, value),
                 (key.to_lowercase(), value.to_string()),
-            );
+            ));
         }
 
         // Sort the parameters lexicographically by parameter name and value, in ascending order.
+        pairs.sort();
         let mut first = true;
-        for key in pairs.keys().sorted() {
+        for (_, query_pair) in pairs {
             if !first {
                 canonicalized_parameters.push('&');
             }
             first = false;
-            let query_pair = pairs[key].clone();
             // Join each parameter key value pair with '='
             let p = if query_pair.1.is_empty() {
-                key.to_string()
+                query_pair.0.to_string()
             } else {
                 format!("{}={}", query_pair.0, query_pair.1)
             };
